@@ -1,7 +1,7 @@
 (* C10 — length, count, value, match and search behave as RFC 9535 defines.  Statements only. *)
 From Coq Require Import List NArith ZArith Bool.
 From JP Require Import Base Ast Eval ValueModel Spec Known WellFormed Regex Entry DataFacts SelFacts
-  ValueFacts Refine RegexFacts.
+  ValueFacts Refine RegexFacts RegexSem.
 Import ListNotations.
 
 (* length(): Unicode scalar values of a string, elements of an array, members of an object,
@@ -61,6 +61,20 @@ Proof.
   intros p s H Hn. rewrite rx_model_full_ok, rx_model_sub_ok by exact H.
   unfold rx_spec_full, rx_spec_sub. destruct (re_parse p) as [r| |]; [exfalso; apply (Hn r); reflexivity| |]; split; reflexivity.
 Qed.
+
+(* ... where "matches" is the textbook relation, not an algorithm: [M s r i j] says that the substring
+   s[i, j) belongs to the language of r (RegexSem.v: concatenation splits the substring, | is union,
+   * + ? {m,n} are iteration, ^ and $ hold at the two ends of s); the position-set matcher [ends] that
+   the specification functions run is proved to compute exactly this relation (ends_spec: breadth-first
+   closure with a pigeonhole argument for its fuel) *)
+Theorem C10_match_is_language_membership : forall p s,
+  rx_spec_full p s = true <-> exists r, re_parse p = PValid r /\ M s r 0 (length s).
+Proof. exact rx_spec_full_sem. Qed.
+Print Assumptions C10_match_is_language_membership.
+Theorem C10_search_is_substring_membership : forall p s,
+  rx_spec_sub p s = true <-> exists r, re_parse p = PValid r /\ exists i j : nat, (i <= length s)%nat /\ M s r i j.
+Proof. exact rx_spec_sub_sem. Qed.
+Print Assumptions C10_search_is_substring_membership.
 
 (* the anchoring example of the former defect D4, and the unbalanced pattern of D24 *)
 Example C10_regex_examples :
